@@ -27,7 +27,8 @@ def dest(mdir):
     d = f"/verif/seeded/{prop}-{name}"
     os.makedirs(d, exist_ok=True)
     for f in ("patch.diff", "demo.py"):
-        shutil.copy(os.path.join(mdir, f), os.path.join(d, f))
+        if not (f == "patch.diff" and os.path.exists(os.path.join(d, "patch.orig.diff"))):   # keep a patch re-based onto the current HEAD
+            shutil.copy(os.path.join(mdir, f), os.path.join(d, f))
     mp = os.path.join(d, "meta.json")
     cur = json.load(open(mp)) if os.path.exists(mp) else {}
     for k in ("property", "summary", "needs_to_manifest", "files_touched"):
@@ -73,6 +74,9 @@ def check(mdir, tier="quick"):
         print("repo dirty, abort")
         sys.exit(3)
     rca, outa = sh(f"git -C /repo apply {d}/patch.diff")
+    if rca != 0:
+        print(os.path.basename(d), prop, "PATCH-DOES-NOT-APPLY", outa.strip()[:200], flush=True)
+        return
     try:
         t0 = time.time()
         home = os.environ.get("VERIF_HOME", "/verif")
